@@ -123,6 +123,38 @@ func corpusCases() []*Case {
 	add("cast-then-write", "", mkBody(KMethodS, true, []*Stmt{
 		sLet(100, tRefN(tS), &Exp{Kind: "Cast", A: eVar(idPAny), Ty: tRefN(tS)}), sAssign(tgField(tgVar(100), 0), eInt(1)), sRet(eInt(0))}, nil, nil))
 	add("swap-through-ref", "", mkBody(KGlobal, true, []*Stmt{{Kind: "Swap", T: tgIndex(tgVar(idPRA), 0), T2: tgIndex(tgVar(idPA), 1)}, sRet(eInt(0))}, nil, nil))
+	// --- every write form (each must be rejected in a view context unless the target is local)
+	kid0 := func(root int) *Target { return tgIndex(tgField(tgVar(root), 2), 0) }
+	add("second-transfer-into-self-field-element", "let old <- self.kids[0] <- pr: the second value transfer writes self",
+		mkBody(KMethodR, true, []*Stmt{{Kind: "Let2", X: 100, Ty: tR, T: kid0(idSelf), E: eVar(idPR)}, sRet(eVar(100))}, nil, nil))
+	add("second-transfer-into-param-element", "", mkBody(KMethodR, true, []*Stmt{
+		{Kind: "Let2", X: 100, Ty: tR, T: kid0(idPR), E: newR(4)}, sExp(&Exp{Kind: "Destroy", A: eVar(100)}), sRet(eVar(idPR))}, nil, nil))
+	add("second-transfer-in-view-closure", "", mkBody(KMethodR, true, []*Stmt{
+		sLet(101, tFun(true), &Exp{Kind: "Fun", View: true, Body: []*Stmt{
+			sLet(102, tR, &Exp{Kind: "New", CK: "KR", Args: []*Exp{eInt(1), {Kind: "Arr", Ty: tArr(tInt)}, {Kind: "Arr", Args: []*Exp{newR(2)}, Ty: tArr(tR)}, eInt(0)}}),
+			{Kind: "Let2", X: 103, Ty: tR, T: kid0(102), E: newR(3)},
+			sExp(&Exp{Kind: "Destroy", A: eVar(102)}), sExp(&Exp{Kind: "Destroy", A: eVar(103)}), sRet(eInt(0))}}),
+		sRet(eVar(idPR))}, nil, nil))
+	add("second-transfer-nonview-executes", "non-view: the swap-in/out is allowed and must match the model's run",
+		mkBody(KMethodR, false, []*Stmt{{Kind: "Let2", X: 100, Ty: tR, T: kid0(idSelf), E: eVar(idPR)}, sRet(eVar(100))}, nil, nil))
+	add("second-transfer-in-view-init", "", mkBody(KInitR, true, []*Stmt{
+		{Kind: "Let2", X: 100, Ty: tR, T: kid0(idSelf), E: newR(4)}, sExp(&Exp{Kind: "Destroy", A: eVar(100)})}, nil, nil))
+	add("force-assignment-in-view", "", mkBody(KGlobal, true, []*Stmt{
+		sLet(100, tOpt(tR), &Exp{Kind: "Nil"}), sAssign(tgVar(100), newR(5)), sExp(&Exp{Kind: "Destroy", A: eVar(100)}), sRet(eInt(0))}, nil, nil))
+	add("force-assignment-nonview-executes", "", mkBody(KGlobal, false, []*Stmt{
+		sLet(100, tOpt(tR), &Exp{Kind: "Nil"}), sAssign(tgVar(100), newR(5)), sExp(&Exp{Kind: "Destroy", A: eVar(100)}), sRet(eInt(3))}, nil, nil))
+	add("remove-attachment-in-view", "", mkBody(KMethodR, true, []*Stmt{{Kind: "Remove", T: tgVar(idPR)}, sRet(eVar(idPR))}, nil, nil))
+	add("attach-then-remove-nonview-executes", "", mkBody(KMethodR, false, []*Stmt{
+		sLet(100, tR, &Exp{Kind: "Attach", A: eVar(idPR)}), {Kind: "Remove", T: tgVar(100)}, sRet(eVar(100))}, nil, nil))
+	add("swap-self-field-in-view-method", "", mkBody(KMethodS, true, []*Stmt{
+		{Kind: "Swap", T: tgField(self, 0), T2: tgIndex(tgVar(idPA), 0)}, sRet(eInt(0))}, nil, nil))
+	add("swap-global-in-view", "", mkBody(KGlobal, true, []*Stmt{{Kind: "Swap", T: tgVar(idG), T2: tgIndex(tgVar(idPA), 0)}, sRet(eInt(0))}, nil, nil))
+	add("assign-global-array-element", "", mkBody(KGlobal, true, []*Stmt{sAssign(tgIndex(tgVar(idGArr), 0), eInt(1)), sRet(eInt(0))}, nil, nil))
+	add("assign-global-dictionary-element", "", mkBody(KGlobal, true, []*Stmt{sAssign(tgIndex(tgVar(idGD), 1), eInt(1)), sRet(eInt(0))}, nil, nil))
+	add("assign-compound-chain-through-self", "", mkBody(KMethodS, true, []*Stmt{
+		sAssign(tgIndex(tgField(tgIndex(tgField(self, 2), 0), 1), 0), eInt(1)), sRet(eInt(0))}, nil, nil))
+	add("assign-compound-chain-through-ref-param", "", mkBody(KMethodS, true, []*Stmt{
+		sAssign(tgField(tgIndex(tgField(tgVar(idPRS), 2), 0), 0), eInt(1)), sRet(eInt(0))}, nil, nil))
 	add("nonview-mutates-everything", "non-view function: effects are allowed and must match the model's run",
 		mkBody(KMethodS, false, []*Stmt{
 			sAssign(tgField(self, 0), eInt(1)), sAssign(tgField(tgVar(idPRS), 0), eInt(2)), sExp(callB(tgVar(idPRA), "BAppend", eInt(3))),
